@@ -59,9 +59,20 @@ class ValidRule(GuardRule):
             names = origin_names(origins)
             if 'validate_chunk' in names and after & ~POSITIVE == 0:
                 ts = self.add_fact(ts, 'verdict-ok', ())
-            if names & set(CMP_FUNCS) and after == Z:
+            helpers = self.prog.__dict__.get('_orfold_cache')
+            if helpers is None:
+                helpers = {}
+                for g_ in self.prog.lib_funcs():
+                    k_ = orfold_compare(self.prog, g_)
+                    if k_:
+                        helpers[g_.name] = k_
+                self.prog.__dict__['_orfold_cache'] = helpers
+            eq_names = set(n_ for n_ in names if (n_ in CMP_FUNCS and n_ not in helpers and after == Z) or
+                           (helpers.get(n_) == 'zero-equal' and after == Z) or
+                           (helpers.get(n_) == 'true-equal' and after & ~(P1 | POS) == 0 and after))
+            if eq_names:
                 # the comparison call itself, or a temporary holding its result (found through the origin tag)
-                uids = [o.split('@', 1)[1] for o in origins if '@' in o and o.split('@', 1)[0] in CMP_FUNCS]
+                uids = [o.split('@', 1)[1] for o in origins if '@' in o and o.split('@', 1)[0] in eq_names]
                 for ex_ in all_exprs(ctx.fn):
                     for c in calls_in(ex_):
                         if str(c.uid) in uids:
@@ -525,3 +536,100 @@ def chunk_loop(ck, prog, config, clause, fn_name, total_path, ops, seek_want=Non
                   'no seek_data(%s, %r): got %s' % (ctxname, want, got), fn.file, sk[0].line if sk else fn.line,
                   config=config)
     return found
+
+
+# ------------------------------------------------------------------ verdict functions and the comparison primitive
+def orfold_compare(prog, f):
+    """Is f a byte-wise comparison helper of the OR-fold shape (constant-time compare)?
+         acc = 0; for(i < n) acc |= a[i] ^ b[i];  return acc  /  return acc == 0
+    -> None, or 'zero-equal' (returns 0 when equal) / 'true-equal'.  An accumulator updated with any operator other
+    than |= (for example ^=, +=) is not a comparison: different digests can fold to the same value."""
+    from ..ir import walk_stmts
+    ptr_params = [p for p in f.params if (p.t or '').rstrip().endswith('*')]
+    if len(ptr_params) < 2 or f.body is None:
+        return None
+    accs = {}
+    for ex in all_exprs(f):
+        for n in walk(ex):
+            if n.k == 'bin' and n.op.endswith('=') and n.op not in ('==', '!=', '<=', '>=', '='):
+                l = strip(n.a[0])
+                if l.k == 'var' and l.dk == 'VarDecl':
+                    ops = set(x.op for x in walk(n.a[1]) if x.k == 'bin')
+                    reads = [x for x in walk(n.a[1]) if x.k == 'idx' or (x.k == 'un' and x.op == '*')]
+                    if len(reads) >= 2 and (ops & set(['^', '!=', '-'])):
+                        accs.setdefault(l.decl, set()).add(n.op)
+    good = [d for d, ops in accs.items() if ops == set(['|='])]
+    if len(good) != 1 or len(accs) != 1:
+        return None
+    acc = good[0]
+    if not any(s_.k in ('for', 'while', 'do') for s_ in walk_stmts(f.body)):
+        return None
+    kinds = set()
+    for s_ in walk_stmts(f.body):
+        if s_.k == 'return' and s_.e is not None:
+            e = strip(s_.e)
+            if e.k == 'var' and e.decl == acc:
+                kinds.add('zero-equal')
+            elif e.k == 'un' and e.op == '!' and strip(e.a[0]).k == 'var' and strip(e.a[0]).decl == acc:
+                kinds.add('true-equal')
+            elif e.k == 'bin' and e.op in ('==', '!=') and const_value(e.a[1]) == 0 and \
+                    strip(e.a[0]).k == 'var' and strip(e.a[0]).decl == acc:
+                kinds.add('true-equal' if e.op == '==' else 'zero-equal')
+            else:
+                return None
+    return kinds.pop() if len(kinds) == 1 else None
+
+
+def verdict_gates(ck, prog, config, clause, table):
+    """table: (function, exception field or None, reason).  Every positive-verdict exit of a verdict function lies on
+    the equal edge of a byte-wise comparison primitive (memcmp, or a repository helper of the OR-fold shape)."""
+    from ..flow import Z as _Z, P1 as _P1, POS as _POS
+    from .common import GateRule
+    nv = 0
+    for vname, exc_field, exc_why in table:
+        vf = prog.need_func(vname)
+        gates = {}
+        for ex in all_exprs(vf):
+            for c in calls_in(ex):
+                nm = callee_name(c)
+                if nm in ('memcmp', 'CRYPTO_memcmp', 'timingsafe_bcmp', 'timingsafe_memcmp'):
+                    gates[nm] = _Z
+                elif nm:
+                    cands = [g for g in prog.lib_funcs() if g.name == nm]
+                    if len(cands) == 1:
+                        kind = orfold_compare(prog, cands[0])
+                        if kind == 'zero-equal':
+                            gates[nm] = _Z
+                        elif kind == 'true-equal':
+                            gates[nm] = _P1 | _POS
+
+        def exc_edge(rule, ctx2, node, label, refined, ts, exc_field=exc_field, gates=gates):
+            op, l, r = atom_cmp(node.e, label)
+            if exc_field and last_field(l) == exc_field and op == '!=' and const_value(r) == 0:
+                ts = ts | frozenset(['gate:' + g for g in gates] + ['exception'])
+            return ts
+        if not gates:
+            ck.ob(clause, 'R2.gate', vname, 'digest-compare', False,
+                  '%s() contains no byte-wise digest comparison (memcmp or an OR-fold helper): whatever it uses instead '
+                  'can report equality for digests that differ, so a positive verdict does not mean the checksums match'
+                  % vname, vf.file, vf.line, config=config)
+            nv += 2      # the instance exists and is reported; do not let the instance floor mask the finding
+            continue
+        # any one of the primitives on the path suffices: run one rule per primitive and accept exits gated by any
+        viol = None
+        exits = 0
+        for gname, mask in gates.items():
+            rule = GateRule(prog, vf, {gname: mask}, _P1 | _POS, extra_edge=exc_edge)
+            run_rule(prog, vf, rule)
+            exits = max(exits, rule.success_exits)
+            if not rule.violations:
+                viol = None
+                break
+            viol = rule.violations[0]
+        nv += exits
+        ck.ob(clause, 'R2.gate', vname, 'digest-compare', viol is None,
+              '%d positive-verdict exit(s), each on the equal edge of %s%s' % (
+                  exits, '/'.join(sorted(gates)), (' or under %s (%s)' % (exc_field, exc_why)) if exc_field else '')
+              if viol is None else viol.msg + ': the verdict is positive without the digests having been compared',
+              vf.file, viol.node.line if viol else vf.line, path=viol.path if viol else None, config=config)
+    return nv
